@@ -226,7 +226,7 @@ func (x *Exec) step(fr *frameRun, st *State, instr ssa.Instruction) error {
 				x.oblige(st, "safe", fmt.Sprintf("safe.index@%s", x.posStr(in.Pos())), in.Pos(), tb.Cmp("bvult", idx, s.C[2]))
 				// trigger: quantified hypotheses (forall i ... s[i] ...) are instantiated at
 				// every index the code itself reads or writes
-				if len(x.pend) > 0 && !idx.IsConst() && len(x.hints) < 64 {
+				if len(x.pend) > 0 && len(x.hints) < 64 {
 					dup := false
 					for _, h := range x.hints {
 						if h == idx {
